@@ -3,6 +3,7 @@ package main
 // Top-level verification of one function or lemma against its contract.
 
 import (
+	"regexp"
 	"os"
 	"context"
 	"fmt"
@@ -149,7 +150,22 @@ func (e *Env) invVarsAt(fr *Frame, at *ssa.BasicBlock) map[string]Value {
 			vars[n] = v
 		}
 	}
+	e.applyAliases(vars)
 	return vars
+}
+
+// applyAliases binds contract names of renamed locals (see verifyItem) to their new names.
+func (e *Env) applyAliases(vars map[string]Value) {
+	for from, to := range e.aliases {
+		if v, ok := vars[to]; ok {
+			vars[from] = v
+		}
+		for k, v := range vars {
+			if strings.HasPrefix(k, to+"@") {
+				vars[from+k[len(to):]] = v
+			}
+		}
+	}
 }
 
 func paramNames(fn *ssa.Function) map[string]bool {
@@ -173,6 +189,7 @@ func (e *Env) evalInv(fr *Frame, c *Clause, st *State) string {
 		for n, v := range m {
 			vars[n] = v
 		}
+		e.applyAliases(vars)
 	}
 	top := fr
 	for top.parent != nil {
@@ -328,7 +345,204 @@ func (e *Env) assumeLemmaQuantified(pkg *types.Package, name string) {
 	e.usedLemmas[lem.Pkg+"."+lem.Name] = true
 }
 
+// verifyItem verifies one contract item. If a loop invariant or proof hint names a local
+// variable that no longer exists (a renamed local), the names it may stand for are searched:
+// invariants and `ghost ... assert` hints are proof artefacts, so ANY binding of such a name to a
+// local of the function under which every obligation discharges is a valid proof. Names that
+// occur in the specification proper (requires / ensures / modifies / emitted records) are never
+// rebound.
 func (w *World) verifyItem(it *Item, timeoutMs int) *FuncResult {
+	res := w.verifyItemOnce(it, timeoutMs, nil)
+	if it.Kind != "func" || res.Error == "" {
+		return res
+	}
+	if r := w.rebindSearch(it, timeoutMs, map[string]string{}, res.Error, 0); r != nil {
+		return r
+	}
+	return res
+}
+
+var unknownIdentRe = regexp.MustCompile(`unknown identifier "([A-Za-z_][A-Za-z_0-9]*)"`)
+
+func (w *World) rebindSearch(it *Item, timeoutMs int, aliases map[string]string, errText string, depth int) *FuncResult {
+	m := unknownIdentRe.FindStringSubmatch(errText)
+	if m == nil || depth >= 3 {
+		return nil
+	}
+	x := m[1]
+	if !hintOnlyName(it, x) {
+		return nil
+	}
+	fn := w.findFunc(it.Pkg, it.Name)
+	if fn == nil {
+		return nil
+	}
+	used := map[string]bool{}
+	for _, t := range aliases {
+		used[t] = true
+	}
+	tries := 0
+	for _, cand := range localNames(fn) {
+		if used[cand] || itemMentions(it, cand) || tries >= 12 {
+			continue
+		}
+		tries++
+		al := map[string]string{x: cand}
+		for k, v := range aliases {
+			al[k] = v
+		}
+		r := w.verifyItemOnce(it, timeoutMs, al)
+		if r.Error == "" {
+			ok := true
+			for _, o := range r.Obligations {
+				if !o.OK && !w.knownObligations[o.Name] {
+					ok = false
+				}
+			}
+			if ok {
+				var parts []string
+				for k, v := range al {
+					parts = append(parts, k+" -> "+v)
+				}
+				sort.Strings(parts)
+				r.Loops = append(r.Loops, "contract names bound to renamed locals (proof hints only): "+strings.Join(parts, ", "))
+				return r
+			}
+			continue
+		}
+		if r2 := w.rebindSearch(it, timeoutMs, al, r.Error, depth+1); r2 != nil {
+			return r2
+		}
+	}
+	return nil
+}
+
+// localNames lists the source names of the locals of fn and of the function literals nested in it.
+func localNames(fn *ssa.Function) []string {
+	seen := map[string]bool{}
+	var out []string
+	var walk func(f *ssa.Function)
+	walk = func(f *ssa.Function) {
+		for _, b := range f.Blocks {
+			for _, ins := range b.Instrs {
+				name := ""
+				switch x := ins.(type) {
+				case *ssa.DebugRef:
+					if id, ok := x.Expr.(*ast.Ident); ok {
+						if ob, isVar := x.Object().(*types.Var); isVar && !ob.IsField() {
+							name = id.Name
+						}
+					}
+				case *ssa.Alloc:
+					if x.Comment != "complit" && x.Comment != "varargs" {
+						name = x.Comment
+					}
+				case *ssa.Phi:
+					name = x.Comment
+				}
+				if name != "" && name != "_" && !seen[name] && !strings.ContainsAny(name, ". ") {
+					seen[name] = true
+					out = append(out, name)
+				}
+			}
+		}
+		for _, a := range f.AnonFuncs {
+			walk(a)
+		}
+	}
+	walk(fn)
+	sort.Strings(out)
+	return out
+}
+
+func sexprMentions(x *SExpr, name string) bool {
+	if x == nil {
+		return false
+	}
+	if x.Op == "ident" && x.Name == name {
+		return true
+	}
+	for _, a := range x.Args {
+		if sexprMentions(a, name) {
+			return true
+		}
+	}
+	for _, tr := range x.Trig {
+		for _, t := range tr {
+			if sexprMentions(t, name) {
+				return true
+			}
+		}
+	}
+	return false
+}
+
+// itemMentions: the contract uses this name somewhere (so it is not a candidate target).
+func itemMentions(it *Item, name string) bool {
+	for _, c := range it.Clauses {
+		if sexprMentions(c.Expr, name) {
+			return true
+		}
+		for _, e := range c.Exprs {
+			if sexprMentions(e, name) {
+				return true
+			}
+		}
+	}
+	for _, g := range it.GhostAt {
+		if sexprMentions(g.Assume, name) {
+			return true
+		}
+		if g.Emit != nil {
+			for _, a := range g.Emit.Args {
+				if sexprMentions(a, name) {
+					return true
+				}
+			}
+		}
+	}
+	for _, u := range it.UseAt {
+		for _, a := range u.Args {
+			if sexprMentions(a, name) {
+				return true
+			}
+		}
+	}
+	return false
+}
+
+// hintOnlyName: the name occurs only in loop invariants, `use` hints and `ghost ... assert`
+// hints, never in requires / ensures / modifies / decreases / emitted records / assumptions.
+func hintOnlyName(it *Item, name string) bool {
+	for _, c := range it.Clauses {
+		if c.Kind == "invariant" {
+			continue
+		}
+		if sexprMentions(c.Expr, name) {
+			return false
+		}
+		for _, e := range c.Exprs {
+			if sexprMentions(e, name) {
+				return false
+			}
+		}
+	}
+	for _, g := range it.GhostAt {
+		if g.Assume != nil && !g.Assert && sexprMentions(g.Assume, name) {
+			return false
+		}
+		if g.Emit != nil {
+			for _, a := range g.Emit.Args {
+				if sexprMentions(a, name) {
+					return false
+				}
+			}
+		}
+	}
+	return true
+}
+
+func (w *World) verifyItemOnce(it *Item, timeoutMs int, aliases map[string]string) *FuncResult {
 	t0 := time.Now()
 	res := &FuncResult{Property: it.Property, Kind: it.Kind, Item: it}
 	pkgShort := strings.TrimPrefix(it.Pkg, modPath+"/")
@@ -343,6 +557,7 @@ func (w *World) verifyItem(it *Item, timeoutMs int) *FuncResult {
 	}
 	defer e.sess.Close()
 	e.prop = it.Property
+	e.aliases = aliases
 	e.usedContracts = map[string]bool{}
 	e.usedLemmas = map[string]bool{}
 	e.opaque = map[string]bool{}
